@@ -1,6 +1,6 @@
 (* Props/C09.v — C09: latency control bounds queued stream data and never wedges. *)
 From Coq Require Import List NArith Ascii Bool Lia.
-From SV Require Import Model.StreamQuiet Proofs.Stream_quiet Model.StreamDrain Proofs.Stream_drain Proofs.Stream_flow Proofs.Stream_props Lib.Bytes Model.Wire Model.Chan Model.Stream
+From SV Require Import Model.StreamQuiet Proofs.Stream_quiet Model.StreamDrain Proofs.Stream_drain Proofs.Stream_drain_clean Proofs.Stream_flow Proofs.Stream_props Lib.Bytes Model.Wire Model.Chan Model.Stream
   Proofs.Stream_basic Proofs.Stream_wrap Proofs.Stream_cb Proofs.Stream_lat Gen.Consts.
 Import ListNotations.
 Local Open Scope N_scope.
@@ -93,6 +93,26 @@ Theorem c09_pause_ends :
      (quiescent_eagerb w' = true /\ tf w' Client = false /\ tf w' Server = false)).
 Proof. exact d_c09_pause_ends. Qed.
 Print Assumptions c09_pause_ends.
+
+(* (9b) ... WITHOUT the escape clause "or a stale delivery happened" (Proofs/Stream_drain_clean.v):
+   under the boolean hypothesis drain_cleanb w (C01 (3d): no frame or unsent byte of an older
+   incarnation of an identifier can still reach a newer one; implied by no_reuseb w) the drain makes no
+   stale delivery and ends strictly quiescent with neither end paused.  Without the hypothesis the
+   statement is false of the model (c01_drain_unconditional_refuted). *)
+Theorem c09_pause_ends_clean :
+  forall maxc lbs evs w, run (world0 maxc lbs) evs = Ok w -> w_stale w = false -> drain_cleanb w = true ->
+  exists w', Forall eager_event (drain_of w) /\ run w (drain_of w) = Ok w' /\
+    w_stale w' = false /\ quiescent_eagerb w' = true /\ tf w' Client = false /\ tf w' Server = false.
+Proof. exact dc_c09_pause_ends. Qed.
+Print Assumptions c09_pause_ends_clean.
+
+(* the paused example above is such a state (no identifier used twice) *)
+Example c09_ex_paused_clean :
+  match run (world0 65535 3) d_paused with
+  | Ok w => w_stale w = false /\ tf w Client = true /\ no_reuseb w = true /\ drain_cleanb w = true
+  | Crash _ => False
+  end.
+Proof. vm_compute. auto. Qed.
 
 Example c09_ex_pause_ends :
   match run (world0 65535 3) d_paused with
